@@ -42,14 +42,14 @@ func (Engine) Describe(prop string) core.Description {
 			"the package's map-range loops (parameter walk in NewSimpleURL, five loops in NewParams, the field walk in URL.String) under the seeded map-order scheduler",
 		},
 		Stub: []string{"none: metamorphic oracle (variants of one URL must print the same text; String() must be a fixed point of parse-then-print)"},
-		Rule: "one run = one seeded schema (member names; some types without fields) and one raw URL of any accepted path shape with any mix of fields[t], sort, include, page[number|size], filter (label or and/or tree), IDs / page values / labels / filter strings drawn with URL-reserved characters (percent-encoded), then 1..6 variants (differently named parameters permuted, names in fields[...] and include permuted, empty list items inserted; never the order inside sort, never a repeated parameter); every parse and every String() runs under its own seeded map order; " +
+		Rule: "one run = one seeded schema (member names; some types without fields) and one raw URL of any accepted path shape with any mix of fields[t], sort, include, page[number|size], filter (label or and/or tree whose object members come in any order, now and then with white space; in a quarter of the runs the schema is reached through a longer edit history), IDs / page values / labels / filter strings drawn with URL-reserved characters (percent-encoded), then 1..6 variants (differently named parameters permuted, names in fields[...] and include permuted, empty list items inserted; never the order inside sort, never a repeated parameter); every parse and every String() runs under its own seeded map order; " +
 			"non-trivial = the URL parses and has at least two parameters or a reserved character; distinct = distinct event-log hash; distinct_model_states counts distinct String() texts",
 		Assumptions: []string{
 			"a raw URL whose parse errs or panics is outside C08 ('for every successfully parsed URL'): counted, not judged",
 			"only page[number] and page[size] are generated as page parameters; an empty field list and an absent entry are the same selection",
 			"the fixed-point clause is monitored on sampled URLs; the seam-dependent clause (parameter / list order, map order) is what simulation decides",
 		},
-		Probes: []string{"parse-ok", "parse-error", "reserved-char-in-id", "reserved-char-in-filter-label", "reserved-char-in-page-value", "reserved-char-in-filter-string", "filter-tree", "type-without-fields", "variant-params-permuted", "variant-empty-items", "relationship-url", "collection-url", "include-param", "extra-page-parameter"},
+		Probes: []string{"parse-ok", "parse-error", "reserved-char-in-id", "reserved-char-in-filter-label", "reserved-char-in-page-value", "reserved-char-in-filter-string", "filter-tree", "filter-members-in-another-order", "type-without-fields", "variant-params-permuted", "variant-empty-items", "relationship-url", "collection-url", "include-param", "extra-page-parameter", "schema-built-through-edit-history"},
 	}
 }
 
@@ -204,6 +204,71 @@ func drawFilterTree(t *core.Tape, ts *world.TypeSpec, depth int, flags map[strin
 	}
 
 	return m
+}
+
+// filterJSON writes a filter tree as a client may: the members of an object in
+// any order (JSON objects are unordered; encoding/json would always write c, f,
+// o, v) and, now and then, with insignificant white space.
+func filterJSON(t *core.Tape, node map[string]interface{}, flags map[string]bool) string {
+	keys := make([]string, 0, len(node))
+	for k := range node {
+		keys = append(keys, k)
+	}
+
+	sort.Strings(keys)
+
+	if t.Bool(1, 3) {
+		for i := len(keys) - 1; i > 0; i-- {
+			j := t.Draw(i + 1)
+			keys[i], keys[j] = keys[j], keys[i]
+		}
+
+		if !sort.StringsAreSorted(keys) {
+			flags["filter-members-in-another-order"] = true
+		}
+	}
+
+	sp := ""
+	if t.Bool(1, 8) {
+		sp = " "
+	}
+
+	var sb strings.Builder
+
+	sb.WriteString("{" + sp)
+
+	for i, k := range keys {
+		if i > 0 {
+			sb.WriteString("," + sp)
+		}
+
+		kb, _ := json.Marshal(k)
+		sb.Write(kb)
+		sb.WriteString(":" + sp)
+
+		if kids, ok := node[k].([]interface{}); ok && k == "v" {
+			sb.WriteString("[")
+
+			for j, kid := range kids {
+				if j > 0 {
+					sb.WriteString("," + sp)
+				}
+
+				sb.WriteString(filterJSON(t, kid.(map[string]interface{}), flags))
+			}
+
+			sb.WriteString("]")
+
+			continue
+		}
+
+		vb, _ := json.Marshal(node[k])
+		sb.Write(vb)
+	}
+
+	sb.WriteString(sp + "}")
+
+	return sb.String()
 }
 
 func drawURL(t *core.Tape, s *world.SchemaSpec) *urlSpec {
@@ -379,8 +444,7 @@ func drawURL(t *core.Tape, s *world.SchemaSpec) *urlSpec {
 		u.params = append(u.params, param{name: "filter", value: l})
 	case 1:
 		tree := drawFilterTree(t, resType, 0, u.flags)
-		b, _ := json.Marshal(tree)
-		u.params = append(u.params, param{name: "filter", value: string(b)})
+		u.params = append(u.params, param{name: "filter", value: filterJSON(t, tree, u.flags)})
 		u.flags["filter-tree"] = true
 	}
 
@@ -483,7 +547,15 @@ func run(t *core.Tape, st *core.Stats) *core.Violation {
 		err    error
 	)
 
-	if p := core.Call(func() { schema, err = spec.BuildSchema(nil) }); p != nil {
+	viaHistory := false
+
+	defer func() {
+		if viaHistory {
+			st.Inc("probe:schema-built-through-edit-history")
+		}
+	}()
+
+	if p := core.Call(func() { schema, viaHistory, err = spec.BuildSchemaAnyHow(t) }); p != nil {
 		return viol("no-panic", p.Func, "build-schema:"+p.Class, "building the schema panicked: %s", p.Value)
 	}
 
